@@ -79,11 +79,15 @@ func (p *StreamPool) VerifQueued() (maxPages, queuedPages int, oldestHead time.T
 	p.mu.RLock()
 	defer p.mu.RUnlock()
 	for _, c := range p.conns {
-		if c.pages > maxPages {
-			maxPages = c.pages
-		}
+		// counted by walking the queue, not taken from the c.pages counter the
+		// limit logic itself relies on
+		n := 0
 		for pg := c.first; pg != nil; pg = pg.next {
-			queuedPages++
+			n++
+		}
+		queuedPages += n
+		if n > maxPages {
+			maxPages = n
 		}
 		if c.first != nil && !c.closed && (!any || c.first.Seen.Before(oldestHead)) {
 			oldestHead, any = c.first.Seen, true
